@@ -221,10 +221,20 @@ func generate[G algebra.PrimeGroupElement[G, S], S algebra.PrimeFieldElement[S]]
 // keygenLine projects the result of one key generation: tokens of what every party reports, the relation booleans, the subset table.
 func keygenLine[G algebra.PrimeGroupElement[G, S], S algebra.PrimeFieldElement[S]](g *groupDesc[G, S], np namedPolicy, protoName, api string, comp compiler.Name) {
 	shards, rejects, ctorErr := generate(g, np.Pol, protoName, api, comp)
-	ev := map[string]any{"a": "keygen", "k": fmt.Sprintf("keygen:%s:%s:%s:%s:%s", protoName, api, g.name, comp, np.Name), "proto": protoName, "api": api, "group": g.name,
+	ev := map[string]any{"a": "keygen", "k": fmt.Sprintf("keygen:%s:%s:%s:%s:%s", protoName, api, g.name, comp, np.Name), "proto": protoName, "api": api, "group": g.name, "gbits": groupBits(g.name),
 		"comp": string(comp), "pol": np.Pol, "polName": np.Name, "holders": ad.IDsU(holders(np.Pol)), "ctorErr": ctorErr, "rejects": rejectsJ(rejects),
-		"ok": ctorErr == "" && len(rejects) == 0}
+		"ok": ctorErr == "" && len(rejects) == 0, "class": ""}
 	if ctorErr != "" || len(rejects) > 0 {
+		// the class of a failure ("degenerate" = a value that happens to be the identity was refused, probability 1/q); the
+		// specification names the guard
+		cls := refusalClass(ctorErr)
+		if ctorErr == "" {
+			cls = classOf(rejects)
+		}
+		if cls == "" {
+			cls = "other"
+		}
+		ev["class"] = cls
 		w.Emit(ev)
 		return
 	}
